@@ -79,6 +79,22 @@ func runControls(dir string) error {
 		}
 		expect("chain", n, flagged)
 	}
+	// TAINT index sinks
+	for _, n := range []string{"goodIndexBounded", "badIndexOffByOne"} {
+		fn := fns[n]
+		taint := eng.IntFlow(fn.Params[0])
+		sinks := eng.IndexSinks(fn, taint)
+		if len(sinks) == 0 {
+			fails = append(fails, "index-taint: no sink recognised in "+n)
+		}
+		flagged := false
+		for _, sk := range sinks {
+			if !eng.IndexGuarded(fn, sk, taint) {
+				flagged = true
+			}
+		}
+		expect("index-taint", n, flagged)
+	}
 	// STRIDE
 	all := eng.AnalyzeStrideAll(p.SrcFuncs(false))
 	for _, n := range []string{"goodStrideXY", "badStrideReadsZ", "badStrideLiteralStep"} {
